@@ -319,11 +319,13 @@ theorem walkLoop_back_done (e : Env) (wf : WF e) (t r : Nat) (fuel : Nat) (σ : 
 /-- **one backward task, framing**: a successful `scheduleTask` of a backward effort task with the single resource `r`,
     started with nothing of the task on `r`, leaves it framed: bookings between the finishing slot and the first booked
     slot, start inside the former, end = end of the latter -/
-theorem scheduleTask_framed_back (e : Env) (wf : WF e) (σ : St) (t r : Nat)
-    (hinv : Inv e σ) (hel : Elig e t r) (hb : t < σ.ts.size) (hf : (σ.tst t).forward = false)
+theorem scheduleTask_framed_back_sel (e : Env) (wf : WF e) (σ : St) (t r : Nat)
+    (hinv : Inv e σ) (hlf : (e.taskD t).leaf = true) (hal : (e.taskD t).hasAlloc = true)
+    (hnm : (e.taskD t).milestone = false) (hpos : 0 < (e.taskD t).effort)
+    (hsel0 : selectBest e (σ.setT t (σ.tst t)) (e.taskD t).alloc (e.taskD t).alt (e.taskD t).effort (initCursor e σ t).1 = [r])
+    (hb : t < σ.ts.size) (hf : (σ.tst t).forward = false)
     (hnd : (σ.tst t).done = false) (hclean : ∀ i, usageOf (σ.led.get r i).usage t = none)
     (hok : (scheduleTask e σ t).2 = true) : Framed e (scheduleTask e σ t).1 t r := by
-  have hpos := hel.effort
   have hpc : preStartCursor e σ t (initCursor e σ t).1 = (initCursor e σ t).1 := by
     unfold preStartCursor; simp [hf]
   have hpt : preStartT e σ t (initCursor e σ t).1 = σ.tst t := by
@@ -344,12 +346,12 @@ theorem scheduleTask_framed_back (e : Env) (wf : WF e) (σ : St) (t r : Nat)
         by rw [size_setT]; exact hb, by rw [tst_setT_same _ _ _ hb]; exact hf,
         ⟨fun _ i hi => absurd hi List.not_mem_nil, fun fb hfb => by simp at hfb⟩⟩
     have hs0 : selectedOf e (σ.setT t (σ.tst t)) t { cur := (initCursor e σ t).1, offset := (initCursor e σ t).2 } = [r] := by
-      unfold selectedOf; exact hel.sel _ _
+      unfold selectedOf; exact hsel0
     by_cases hfin : (walkLoop e t false (e.size.toNat + 3) (σ.setT t (σ.tst t))
         { cur := (initCursor e σ t).1, offset := (initCursor e σ t).2 }).2.2 = true
     · simp only [hfin, Bool.not_true, Bool.false_eq_true, if_false] at hok ⊢
       obtain ⟨lo, fb, hfbw, hle, hlone, hfbne, hall, ⟨v, hv, hv1, hv2⟩⟩ :=
-        walkLoop_back_done e wf t r _ _ _ [] h0 hel.leaf hw hel.alloc hel.nomile hs0 hpos hpos hbi hfin
+        walkLoop_back_done e wf t r _ _ _ [] h0 hlf hw hal hnm hs0 hpos hpos hbi hfin
       have hsz : t < (walkLoop e t false (e.size.toNat + 3) (σ.setT t (σ.tst t))
           { cur := (initCursor e σ t).1, offset := (initCursor e σ t).2 }).1.ts.size := by
         rw [(walkLoop_frame e t false _ _ _).2.2.2.2, size_setT]; exact hb
@@ -366,6 +368,13 @@ theorem scheduleTask_framed_back (e : Env) (wf : WF e) (σ : St) (t r : Nat)
         { cur := (initCursor e σ t).1, offset := (initCursor e σ t).2 }).2.2 = false := by simpa using hfin
       simp only [hfin', Bool.not_false, if_true] at hok
       exact Bool.noConfusion hok
+
+/-- **one backward task, framing**, for a task whose selection is `[r]` in every state -/
+theorem scheduleTask_framed_back (e : Env) (wf : WF e) (σ : St) (t r : Nat)
+    (hinv : Inv e σ) (hel : Elig e t r) (hb : t < σ.ts.size) (hf : (σ.tst t).forward = false)
+    (hnd : (σ.tst t).done = false) (hclean : ∀ i, usageOf (σ.led.get r i).usage t = none)
+    (hok : (scheduleTask e σ t).2 = true) : Framed e (scheduleTask e σ t).1 t r :=
+  scheduleTask_framed_back_sel e wf σ t r hinv hel.leaf hel.alloc hel.nomile hel.effort (hel.sel _ _) hb hf hnd hclean hok
 
 end SP
 
